@@ -14,19 +14,28 @@ from .common import frac_str
 
 RULE = ('exact stream: node lists of 1..5 nodes with integer coordinates in [-8,8] scaled by 2^s (s in -3..3), built from '
         'features (arbitrary, loop p0=p3, cusp handle=point, coincident nodes, collinear/already-flat, handle projecting '
-        'beyond the chord end, S-shape) x flatness in {1,3/2,2,3,4}*2^s; random binary64 stream with flatness '
-        '2^-r*scale (r<=12; a few deep cases r<=20). non-trivial = at least one split; distinct by (node list, flat)')
+        'beyond the chord end, S-shape, exact coincidence "t=1/2 point of a piece equals its start/end point": '
+        'P3 = 7 P0 - 3 P1 - 3 P2 and the mirrored form) x flatness in {1,3/2,2,3,4}*2^s; points held as lists [x,y] '
+        '(cubicsuperpath) or as tuples (x,y) (the repo tests), alternating; random binary64 stream with flatness '
+        '2^-r*scale (r<=10; a few deep cases r<=18), 40% translated by up to 1e9*flat from the origin; every 2nd/4th case is '
+        'followed by a second call on the same list object. non-trivial = at least one split; distinct by (node list, flat)')
 TRUSTED = ['harness oracle: restrict() by blossoming and dist2() by clamped projection, in exact Fractions',
            'modelled not verified: Python list indexing / slice insertion s_p[i:1] = [x] as insertion at index i (i >= 1)',
            'binary64 rounding of the real code is outside the model (model = exact rationals): on the exact stream all '
            'operations are exact (checked: results are compared as exact Fractions); the random stream is judged by the '
-           'Spec within a measured relative margin (see notes)']
-ASSUMPTIONS = ['node lists of >= 1 nodes [[x,y],[x,y],[x,y]] of finite floats; flat > 0; default start index i=1',
-               'random stream: flat >= 2^-20 * (largest |coordinate|) — for much smaller flat, flat**2 and the squared '
-               'distances lose all precision / underflow and the real loop need not terminate (outside the domain)']
+           'Spec: nodes within 128 * 2^-53 * (largest |coordinate| of the piece) (measured <= 4.5), flatness exact on the '
+           'stored float control points outside the relative band max(1e-9, 8 * 2^-53 * extent / flat) (see notes)']
+ASSUMPTIONS = ['node lists of >= 1 nodes [hin, p, hout] (mutable lists) of points (lists or tuples) of finite floats; flat > 0; '
+               'default start index i=1',
+               'random stream: flat >= 2^-20 * (extent of the path) and |coordinates| <= 1e9 * flat — for much smaller flat, '
+               'flat**2 and the squared distances lose all precision / underflow, and farther from the origin binary64 cannot '
+               'resolve `flat`; the real loop need not terminate there (outside the domain)']
 STAGED = []
 
 REL = 1e-9
+U53 = 2.0 ** -53
+KNODE = 128      # |node - Spec| <= KNODE * u * (largest |coordinate| of the piece)
+KBAND = 8.0      # flatness decisions exact outside the relative band max(REL, KBAND * u * (extent of the piece) / flat)
 FUEL = 400000
 
 
@@ -108,6 +117,14 @@ def gen_nodes_int(rng):
             b[0] = [a[1][0] - dx, a[1][1] - dy]
         elif k < 0.5:                     # everything in one point
             a[2] = list(a[1]); b[0] = list(a[1]); b[1] = list(a[1])
+        elif k < 0.62:                    # exact coincidence: the t=1/2 point (P0+3P1+3P2+P3)/8 IS an end point of the piece
+            h = lambda: [float(rng.randint(-4, 4)), float(rng.randint(-4, 4))]
+            if rng.random() < 0.5 or i > 1:
+                a[2], b[0] = h(), h()      # B(1/2) = P0:  P3 = 7 P0 - 3 P1 - 3 P2
+                b[1] = [7 * a[1][c] - 3 * a[2][c] - 3 * b[0][c] for c in (0, 1)]
+            else:                          # B(1/2) = P3:  P0 = 7 P3 - 3 P1 - 3 P2 (first piece only: P0 is free there)
+                a[2], b[0] = h(), h()
+                a[1] = [7 * b[1][c] - 3 * a[2][c] - 3 * b[0][c] for c in (0, 1)]
     return sp
 
 
@@ -133,10 +150,17 @@ def show(sp):
     return [[[repr(c) for c in pt] for pt in nd] for nd in sp]
 
 
-def run_real(pu, sp, flat, cap):
-    work = Guarded([[list(pt) for pt in nd] for nd in sp])
-    work.cap = cap
+def run_real(pu, sp, flat, cap, ptype=list):
+    """`ptype`: points as lists [x, y] (cubicsuperpath) or as tuples (x, y) (the repo's own tests) — the code is
+    duck-typed and comparisons like `tuple == list` are False in Python, so both representations are exercised"""
+    work = Guarded([[ptype(pt) for pt in nd] for nd in sp])
     objs = list(work)
+    guarded_call(pu, work, flat, cap)
+    return objs, work
+
+
+def guarded_call(pu, work, flat, cap):
+    work.cap = cap
     old = signal.signal(signal.SIGALRM, _alarm)
     signal.setitimer(signal.ITIMER_REAL, 20.0)
     try:
@@ -144,7 +168,22 @@ def run_real(pu, sp, flat, cap):
     finally:
         signal.setitimer(signal.ITIMER_REAL, 0)
         signal.signal(signal.SIGALRM, old)
-    return objs, work
+
+
+def second_call(ctx, pu, res, flat, exact, inp, stats):
+    """state carried between calls: subdivide the SAME (already subdivided) list object again and judge that call"""
+    orig2 = [[[c for c in pt] for pt in nd] for nd in res]
+    objs2 = list(res)
+    inp2 = dict(inp, nodes=show(orig2), sequence='second call on the same list object')
+    try:
+        guarded_call(pu, res, flat, len(res) + split_bound(orig2, flat * (1 if exact else 1 - 1e-6)) + 4)
+    except TooMany:
+        ctx.violate('subdivision does not terminate within the proven bound on the number of pieces', inp2, 'too many pieces', 'terminates')
+        return
+    except Exception as ex:
+        ctx.violate('subdivideCubicPath raised ' + type(ex).__name__, inp2, repr(ex), 'the node list is refined in place')
+        return
+    judge(ctx, orig2, objs2, res, flat, exact, inp2, stats)
 
 
 def judge(ctx, orig, objs, res, flat, exact, inp, stats):
@@ -163,14 +202,15 @@ def judge(ctx, orig, objs, res, flat, exact, inp, stats):
     if pos[0] != 0 or pos[-1] != len(res) - 1:
         ctx.violate('nodes were inserted before the first or after the last original node', inp, str(pos), 'first and last node stay at the ends')
         return False
-    if res[0][0] != orig[0][0] or res[-1][2] != orig[-1][2] or any(res[pos[i]][1] != orig[i][1] for i in range(n)):
+    if tuple(res[0][0]) != tuple(orig[0][0]) or tuple(res[-1][2]) != tuple(orig[-1][2]) or \
+            any(tuple(res[pos[i]][1]) != tuple(orig[i][1]) for i in range(n)):
         ctx.violate('an original node moved or an outer handle (first handle-in / last handle-out) changed', inp,
                     str(show([res[0], res[-1]])), 'outer handles and node points intact')
         return False
     for i in range(1, n):
         P = [toF(orig[i - 1][1]), toF(orig[i - 1][2]), toF(orig[i][0]), toF(orig[i][1])]
         size = max(max(abs(c) for c in pt) for pt in P) or F(1)
-        tolr = F(0) if exact else F(REL) * max(size, F(flat))
+        tolr = F(0) if exact else F(KNODE) * F(U53) * size
         t0 = F(0)
         for jj in range(pos[i - 1], pos[i]):
             a, b = res[jj], res[jj + 1]
@@ -191,9 +231,16 @@ def judge(ctx, orig, objs, res, flat, exact, inp, stats):
                 return False
             k, t1, err = found
             stats['depth'] = max(stats['depth'], k)
-            stats['err'] = max(stats['err'], float(err / max(size, F(flat))))
-            lim = f2 if exact else f2 * (1 + F(REL)) ** 2
+            stats['err'] = max(stats['err'], float(err / (F(U53) * size)))
             d1, d2 = dist2(Q[1], Q[0], Q[3]), dist2(Q[2], Q[0], Q[3])
+            if exact:
+                lim = f2
+            else:
+                dq = math.hypot(float(max(q[0] for q in Q) - min(q[0] for q in Q)), float(max(q[1] for q in Q) - min(q[1] for q in Q)))
+                band = max(REL, KBAND * U53 * dq / flat)
+                lim = f2 * (1 + F(band)) ** 2
+                if max(d1, d2) >= f2 and dq > 0:
+                    stats['flatexcess'] = max(stats['flatexcess'], (math.sqrt(max(d1, d2)) / flat - 1) / (U53 * dq / flat))
             stats['flatratio'] = max(stats['flatratio'], float(max(d1, d2) / f2))
             if not (d1 < lim and d2 < lim):
                 ctx.violate('a resulting piece is not flat: an inner control point is not closer than flat to the chord', inp,
@@ -209,7 +256,7 @@ def judge(ctx, orig, objs, res, flat, exact, inp, stats):
 def run(ctx):
     from plotink import plot_utils as pu
     rng = ctx.rng
-    stats = {'depth': 0, 'err': 0.0, 'flatratio': 0.0}
+    stats = {'depth': 0, 'err': 0.0, 'flatratio': 0.0, 'flatexcess': 0.0}
     # does the literal 0.5 force floats? (then Fractions cannot be fed to the real code)
     probe = [[[F(0), F(0)], [F(0), F(0)], [F(0), F(4)]], [[F(4), F(4)], [F(4), F(0)], [F(4), F(0)]]]
     try:
@@ -227,7 +274,12 @@ def run(ctx):
         cases.append((sp, flat))
     cases.append(([[[0.0, 0.0], [0.0, 0.0], [0.0, 4.0]], [[4.0, 4.0], [4.0, 0.0], [4.0, 0.0]]], 1.0))
     cases.append(([[[1.0, 1.0], [2.0, 2.0], [3.0, 3.0]]], 1.0))
+    cases.append(([[[0.0, 0.0], [0.0, 0.0], [4.0, 3.0]], [[-6.0, -3.0], [6.0, 0.0], [6.0, 0.0]]], 0.5))     # B(1/2) = P0
+    cases.append(([[[0.0, 0.0], [6.0, 0.0], [-6.0, -3.0]], [[4.0, 3.0], [0.0, 0.0], [0.0, 0.0]]], 0.5))     # B(1/2) = P3 (mirror)
+    cases.append(([[[1.0, 1.0], [1.0, 1.0], [1.0, 1.0]], [[1.0, 1.0], [1.0, 1.0], [1.0, 1.0]]], 0.25))      # all in one point
     cases.append(([[[0.0, 0.0], [0.0, 0.0], [8.0, 8.0]], [[8.0, -8.0], [0.0, 0.0], [1.0, 1.0]]], 1.0))   # loop
+    npin = 6
+    cases[-npin:] = [c for c in cases[-npin:] for _ in (0, 1)]      # consecutive indices: list points and tuple points
     replay_float = []
     if getattr(ctx, 'replay', None):
         try:
@@ -236,7 +288,8 @@ def run(ctx):
                 i = v.get('input', {})
                 if 'nodes' in i:
                     cs = ([[[float(c) for c in pt] for pt in nd] for nd in i['nodes']], float(i['flat']))
-                    (cases if i.get('stream') == 'exact' else replay_float).insert(0, cs)
+                    for _ in (0, 1):        # twice: consecutive indices run list points and tuple points
+                        (cases if i.get('stream') == 'exact' else replay_float).insert(0, cs)
         except Exception as ex:
             ctx.notes.append(f'replay not understood: {ex!r}')
 
@@ -245,11 +298,12 @@ def run(ctx):
         lines.append(f'c10 sub {FUEL} {frac_str(F(flat))} ' + ' '.join(frac_str(F(c)) for nd in sp for pt in nd for c in pt))
     outs = ctx.driver.batch(lines) if ctx.driver else [None] * len(lines)
     spec_lines, spec_want = [], []
-    for (sp, flat), mout in zip(cases, outs):
-        inp = {'fn': 'subdivideCubicPath', 'stream': 'exact', 'nodes': show(sp), 'flat': repr(flat)}
+    for ci, ((sp, flat), mout) in enumerate(zip(cases, outs)):
+        ptype = tuple if ci % 2 else list
+        inp = {'fn': 'subdivideCubicPath', 'stream': 'exact', 'nodes': show(sp), 'flat': repr(flat), 'points': ptype.__name__}
         bound = split_bound(sp, flat)
         try:
-            objs, res = run_real(pu, sp, flat, len(sp) + bound + 4)
+            objs, res = run_real(pu, sp, flat, len(sp) + bound + 4, ptype)
         except TooMany:
             ctx.count((str(sp), flat), 'nonterminating', True)
             ctx.violate('subdivision does not terminate within the proven bound on the number of pieces', inp,
@@ -264,7 +318,7 @@ def run(ctx):
         if nsplit:
             ctx.sample({'nodes': show(sp), 'flat': repr(flat), 'nodes_after': len(res)})
         d0 = stats['depth']
-        stats_case = {'depth': 0, 'err': 0.0, 'flatratio': 0.0}
+        stats_case = {'depth': 0, 'err': 0.0, 'flatratio': 0.0, 'flatexcess': 0.0}
         ok = judge(ctx, sp, objs, res, flat, True, inp, stats_case)
         for k in stats:
             stats[k] = max(stats[k], stats_case[k])
@@ -275,6 +329,8 @@ def run(ctx):
                     ctx.disagree('subdivideCubicPath node list', inp, got[:400], mout[:400])
                 else:
                     ctx.out_of_domain.append({'what': 'model != real beyond depth 4 (float products no longer exact)', 'input': inp})
+        if ok and ci % 4 < 2 and not ctx.violations:
+            second_call(ctx, pu, res, flat, True, inp, stats_case)
         # second opinion on the harness' restrict(): the Lean Spec on the first piece, first half
         if len(sp) >= 2 and len(spec_lines) < 300:
             P = [toF(sp[0][1]), toF(sp[0][2]), toF(sp[1][0]), toF(sp[1][1])]
@@ -297,10 +353,16 @@ def run(ctx):
             sp = gen_nodes_float(rng, scale)
             r = rng.randint(0, 10) if it < nfl else rng.randint(13, 18)
             flat = scale * 2.0 ** (-r) * rng.uniform(1.0, 2.0)
+            if rng.random() < 0.4:
+                # far from the origin: |offset| up to 1e9 * flat (beyond that binary64 cannot resolve `flat` at all)
+                ox = rng.choice([-1, 1]) * flat * 10.0 ** rng.uniform(3, 9)
+                oy = rng.choice([-1, 0, 1]) * flat * 10.0 ** rng.uniform(3, 9)
+                sp = [[[pt[0] + ox, pt[1] + oy] for pt in nd] for nd in sp]
+        far = max(abs(c) for nd in sp for pt in nd for c in pt) > 1e6 * flat
         inp = {'fn': 'subdivideCubicPath', 'stream': 'float', 'nodes': show(sp), 'flat': repr(flat)}
         bound = split_bound(sp, flat * (1 - 1e-6))
         try:
-            objs, res = run_real(pu, sp, flat, len(sp) + 2 * bound + 4)
+            objs, res = run_real(pu, sp, flat, len(sp) + 2 * bound + 4, tuple if it % 2 else list)
         except TooMany:
             ctx.count((str(sp), flat), 'nonterminating', True)
             ctx.violate('subdivision does not terminate within the proven bound on the number of pieces', inp,
@@ -310,7 +372,9 @@ def run(ctx):
             ctx.count((str(sp), flat), 'raised', True)
             ctx.violate('subdivideCubicPath raised ' + type(ex).__name__, inp, repr(ex), 'the node list is refined in place')
             continue
-        ctx.count((str(sp), flat), 'float:deep' if it >= nfl else 'float', len(res) > len(sp))
-        judge(ctx, sp, objs, res, flat, False, inp, stats)
-    ctx.notes.append(f"max subdivision depth seen {stats['depth']}; float stream: max |node - Spec| relative to piece size "
-                     f"{stats['err']:.3e} (margin {REL}); max (squared distance / flat^2) over resulting pieces {stats['flatratio']:.12f}")
+        ctx.count((str(sp), flat), 'float:deep' if it >= nfl else ('float:far' if far else 'float'), len(res) > len(sp))
+        if judge(ctx, sp, objs, res, flat, False, inp, stats) and it % 4 == 0 and not ctx.violations:
+            second_call(ctx, pu, res, flat, False, inp, stats)
+    ctx.notes.append(f"max subdivision depth seen {stats['depth']}; float stream: max |node - Spec| = "
+                     f"{stats['err']:.1f} u*|coordinate| (margin {KNODE} u); max (squared distance / flat^2) over resulting pieces "
+                     f"{stats['flatratio']:.12f}; worst excess of a resulting piece over flat = {stats['flatexcess']:.3f} u*extent/flat (band constant {KBAND})")
